@@ -1,4 +1,6 @@
 pub mod c01;
+pub mod c02;
+pub mod c21;
 pub mod c23;
 pub mod c35;
 
@@ -7,10 +9,12 @@ use crate::harness::Property;
 pub fn get(id: &str) -> Option<&'static dyn Property> {
     match id {
         "C01" => Some(&c01::C01),
+        "C02" => Some(&c02::C02),
+        "C21" => Some(&c21::C21),
         "C23" => Some(&c23::C23),
         "C35" => Some(&c35::C35),
         _ => None,
     }
 }
 
-pub const ALL_IDS: &[&str] = &["C01", "C23", "C35"];
+pub const ALL_IDS: &[&str] = &["C01", "C02", "C21", "C23", "C35"];
